@@ -56,6 +56,7 @@ struct Rec {
   std::map<std::string, FileState> ins, outs;   // declared inputs + discovered reads; outputs
   std::vector<std::string> discovered;
   std::map<std::string, std::string> trees;     // directory(-structure) inputs: digest of what the node covers
+  int sawBuild = 0;                             // last build that ran this command or found it up to date
 };
 
 struct Run;
@@ -83,9 +84,22 @@ public:
   void determinedRuleNeedsToRun(core::Rule* rule, core::Rule::RunReason reason, core::Rule* inputRule) override;
 };
 
+// One client process: delegate, frontend and the build system (engine, in-memory results) it keeps between builds
+struct Session {
+  llvm::SourceMgr sm;
+  std::unique_ptr<Delegate> delegate;
+  std::vector<std::string> envStore;
+  std::vector<const char*> envp;
+  BuildSystemInvocation inv;
+  std::unique_ptr<BuildSystemFrontend> frontend;
+};
+
 struct Run {
   Json plan;
   std::string property;
+  std::unique_ptr<Session> session;
+  bool descChangedSinceSession = false;
+  int reusedBuilds = 0;
   Desc desc;
   bool descDirty = true;
   int lanes = 2;
@@ -108,6 +122,7 @@ struct Run {
   bool bCancelIssued = false, bCancelReturnedInBuild = false, buildReturned = false, cancelDone = true;
   uint64_t cancelSeq = 0;
   int cancelledBuilds = 0, cancelsInFlight = 0;
+  std::map<std::string, int> lastTouch;   // produced path -> last build in which its producer's stored result may have changed
   // process death during a build (C04 at build-system level)
   std::unique_ptr<simfs::FS> survivor;
   bool suppress = false;       // the observations of a build whose process "died" half way are not judged
@@ -537,6 +552,7 @@ void Run::load() {
 
 void Run::writeBuildFile() {
   simfs::fs().writeFile(std::string(kWork) + "/build.llbuild", desc.toYaml());
+  descChangedSinceSession = true;
   if (getenv("VSIM_DUMP")) fprintf(stderr, "---- build.llbuild ----\n%s\n", desc.toYaml().c_str());
   descDirty = false;
 }
@@ -605,6 +621,9 @@ void Run::opBuild(const Json& op) {
       if (!p) continue;
       if (predictFail[p->name]) upstreamFailed = true;
       if (noClaim.count(p->name) || softAfterFailure.count(p->name)) noClaim.insert(c->name);   // nothing firm can be said downstream of an unjudged command
+      // The engine compares epochs, not values: a producer whose stored result changed in a build that did not reach this
+      // command (and changed back since, which only content-based comparison can show) still re-runs it.  Either is fine.
+      if (recs.count(c->name) && lastTouch.count(i) && lastTouch[i] > recs[c->name].sawBuild) soft.insert(c->name);
       // a virtual node carries no value: its producer running does not by itself re-run consumers
       if (predictRun[p->name] && !isVirtualNode(i)) {
         // a producer that runs rewrites its outputs: a new timestamp always, new content only sometimes
@@ -718,25 +737,35 @@ void Run::opBuild(const Json& op) {
   std::string savedActor = simfs::fs().actor;
   simfs::fs().actor = "build";
 
-  // ---- the build, in a fresh "process": new delegate, new frontend, same disk
-  llvm::SourceMgr sm;
-  Delegate delegate(this, sm);
-  BuildSystemInvocation inv;
-  inv.chdirPath = kWork;
-  inv.buildFilePath = "build.llbuild";
-  inv.dbPath = "build.db";
-  inv.useSerialBuild = serial;
-  inv.schedulerLanes = (uint32_t)lanes;
-  std::vector<const char*> envp;
-  for (auto& e : baseEnv) envp.push_back(e.c_str());
-  envp.push_back(nullptr);
-  inv.environment = envp.data();
-  std::unique_ptr<basic::FileSystem> lfs = basic::createLocalFileSystem();
+  // ---- the build: in a fresh "process" (new delegate, new frontend, same disk), or - when the history says so and the
+  // description is the one the process loaded - in the same one, which re-uses the build system and its engine
+  bool keep = op.getb("reuse") && session && !descChangedSinceSession && property != "C04";
   bool ok;
   {
     runner::Silence quiet;
     sim::set_child_role("bs");
-    BuildSystemFrontend frontend(delegate, inv, std::move(lfs));
+    if (!keep) {
+      session.reset();
+      session.reset(new Session());
+      Session& S = *session;
+      S.delegate.reset(new Delegate(this, S.sm));
+      S.inv.chdirPath = kWork;
+      S.inv.buildFilePath = "build.llbuild";
+      S.inv.dbPath = "build.db";
+      S.inv.useSerialBuild = serial;
+      S.inv.schedulerLanes = (uint32_t)lanes;
+      S.envStore = baseEnv;
+      for (auto& e : S.envStore) S.envp.push_back(e.c_str());
+      S.envp.push_back(nullptr);
+      S.inv.environment = S.envp.data();
+      S.frontend.reset(new BuildSystemFrontend(*S.delegate, S.inv, basic::createLocalFileSystem()));
+      descChangedSinceSession = false;
+    } else {
+      reusedBuilds++;
+      ev("same-process");
+    }
+    Delegate& delegate = *session->delegate;
+    BuildSystemFrontend& frontend = *session->frontend;
     if (cancelOn) {
       // a foreign thread (the client's signal handling thread) cancels through the frontend delegate
       cancelDone = false;
@@ -978,12 +1007,26 @@ void Run::opBuild(const Json& op) {
     res.counters["depfiles_checked"]++;
   }
 
+  // ---- whose stored result may have changed in this build; who was brought up to date
+  for (const Cmd* c : order) {
+    if (c->tool != "shell") continue;
+    bool touched = ran.count(c->name) > 0;
+    if (!touched && recs.count(c->name))
+      for (auto& o : c->outputs)
+        if (!isVirtualNode(o) && !isDirNode(o) && stateOf(o) != recs[c->name].outs[o]) touched = true;   // e.g. updated without running
+    if (touched)
+      for (auto& o : c->outputs) lastTouch[o] = buildNo;
+  }
+  if (ok)
+    for (const Cmd* c : order)
+      if (c->tool == "shell" && recs.count(c->name)) recs[c->name].sawBuild = buildNo;
   // ---- update the records of what ran
   for (const Cmd* c : order) {
     if (c->tool != "shell") continue;
     if (ranOk.count(c->name) && !(failFlags.count(c->name) && (failFlags[c->name] == "baddeps" || failFlags[c->name] == "baddeps2"))) {
       Rec r;
       r.ok = true;
+      r.sawBuild = buildNo;
       r.defHash = defHashWithNodes(*c);
       for (auto& i : c->inputs) {
         if (isDirNode(i)) {
@@ -1037,6 +1080,10 @@ void Run::opBuild(const Json& op) {
     simvfs::set_hook(nullptr);
     if (survivor) {
       int64_t iterFinal = readIteration();
+      {
+        runner::Silence quiet;
+        session.reset();   // that process is gone
+      }
       std::string actor = simfs::fs().actor;
       simfs::setFS(std::move(survivor));
       survivor.reset();
@@ -1165,6 +1212,10 @@ void Run::execute() {
       failFlags.clear();
       ev("unfail-all");
     }
+  }
+  {
+    runner::Silence quiet;
+    session.reset();
   }
 }
 
@@ -1576,6 +1627,7 @@ struct Gen {
       Json op = Json::obj().set("op", "build");
       if (desc.targets.count("second") && rng.chance(150)) op.set("target", util::hex("second"));
       else op.set("target", util::hex(""));
+      if (hist.a.size() > 0 && rng.chance(300)) op.setb("reuse", true);   // same client process as the previous build, if the description allows
       if (property == "C05" && rng.chance(550))
         op.set("cancel", Json::obj().set("n", (int64_t)rng.below(6)).set("yields", (int64_t)rng.below(25)));
       if (property == "C04" && rng.chance(450)) op.set("kill", Json::obj().set("n", (int64_t)(rng.chance(300) ? rng.below(400) : rng.below(90))));
@@ -1754,6 +1806,8 @@ public:
     run.execute();
     sim::end();
     simfs::useSimCwd(false);
+    if (getenv("VSIM_TRACE"))
+      for (auto& l : run.log) fprintf(stderr, "  %s\n", l.c_str());
     run.res.simtime_us = (sim::now_ns() - t0) / 1000;
     run.res.evhash = run.evh.get();
     run.res.ihash = sim::interleaving_hash();
@@ -1772,6 +1826,7 @@ public:
     c["builds_with_failures"] += (uint64_t)run.failuresInjected;
     c["discovered_dependencies_delivered"] += (uint64_t)run.discoveredSeen;
     c["leaked_descriptors"] += simos::fds().size();
+    c["builds_in_a_reused_process"] += (uint64_t)run.reusedBuilds;
     const std::string& p = run.property;
     if (p == "C08") run.res.nontrivial = run.descEdits > 0 && run.sourceEdits > 0 && run.skippedCommands > 0;
     else if (p == "C09") run.res.nontrivial = run.anyMixed || run.nullBuilds > 0;
